@@ -113,7 +113,9 @@ func newParams(cs Case, root string) *utils.Params {
 	return p
 }
 
-const maxText = 1 << 20
+// maxText bounds the SSA listings kept for diagnostics (the hash is always
+// kept); listings equal to the first one are dropped at once.
+const maxText = 256 << 10
 
 // compileWith compiles the measured program of cs with a fresh Compiler on
 // params.  A panic of the compiler is reported as an error outcome (the
@@ -198,9 +200,11 @@ const workerEnv = "C08_WORKER_ROOT"
 func TestMain(m *testing.M) {
 	// Every compilation allocates a few MB of tables and the workers are
 	// short-lived: a relaxed GC target saves about a third of the run time.
+	// The soft memory limit keeps a large program from multiplying that.
 	if os.Getenv("GOGC") == "" {
-		debug.SetGCPercent(400)
+		debug.SetGCPercent(200)
 	}
+	debug.SetMemoryLimit(768 << 20)
 	if root, ok := os.LookupEnv(workerEnv); ok {
 		os.Exit(workerMain(root))
 	}
@@ -255,7 +259,12 @@ func checkWorkers(t *testing.T) {
 	}
 }
 
+// workerSem bounds the worker processes running at the same time.
+var workerSem = make(chan struct{}, 2)
+
 func runWorker(cs Case, root string) ([]result, error) {
+	workerSem <- struct{}{}
+	defer func() { <-workerSem }()
 	res, err := runWorker1(cs, root)
 	if err != nil {
 		res, err = runWorker1(cs, root)
@@ -637,6 +646,9 @@ func run(cs Case) ev.Outcome {
 	for r := 0; r < cs.Reps; r++ {
 		x := measure(cs, root, r)
 		x.Where = fmt.Sprintf("in-process compilation %d", r)
+		if r > 0 && x.SSA == res[0].SSA {
+			x.Text = ""
+		}
 		res = append(res, x)
 	}
 	wg.Wait()
@@ -648,6 +660,9 @@ func run(cs Case) ev.Outcome {
 		}
 		for r, x := range w.res {
 			x.Where = fmt.Sprintf("worker process %d compilation %d", p, r)
+			if x.SSA == res[0].SSA {
+				x.Text = ""
+			}
 			res = append(res, x)
 		}
 	}
@@ -817,7 +832,7 @@ func TestRepo(t *testing.T) {
 				cs := fp
 				k := uint64(col.Seed)*1000003 + uint64(idx)*7919 + uint64(round)
 				cs.Prune = k%3 == 1
-				cs.GMW = k%5 == 2
+				cs.GMW = k%5 == 2 && !fp.noGMW
 				if !fp.noHistory {
 					n := int(k % 4)
 					for i := 0; i < n; i++ {
